@@ -15,6 +15,8 @@ mod model;
 mod props;
 #[allow(dead_code)]
 mod support;
+#[allow(dead_code)]
+mod xmlcheck;
 
 use vcommon::{Args, Ctx};
 
@@ -24,6 +26,8 @@ fn main() {
     let mut ctx = Ctx::new(args);
     match prop.as_str() {
         "C26" => props::c26::run(&mut ctx),
+        "C27" => props::c27::run(&mut ctx),
+        "C28" => props::c28::run(&mut ctx),
         other => {
             eprintln!("zg: unknown property {other}");
             std::process::exit(3);
